@@ -792,6 +792,18 @@ func (g *Gen) unop(in *ssa.UnOp) {
 		g.define(in, t)
 		g.assume(g.typeFacts(g.vals[in], in.Type()))
 		g.observe(g.vals[in], in.Type())
+		if gv, ok := in.X.(*ssa.Global); ok && gv.Pkg != nil {
+			// trusted facts about a package-level variable of another package (`globalfact time.UTC isUTCLoc`)
+			for _, gf := range g.c.globalFacts {
+				if gf.Var == gv.Pkg.Pkg.Name()+"."+gv.Name() {
+					if gd, ok := g.c.ghosts[gf.Pred]; ok && !gd.IsVar && len(gd.Params) == 1 {
+						fn := g.declareFun(sym("ghost."+gf.Pred), []string{g.sortOf(in.Type())}, "Bool")
+						g.assume(app(fn, g.vals[in]))
+						g.trusted["globalfact "+gf.Var+" "+gf.Pred] = true
+					}
+				}
+			}
+		}
 	case token.NOT:
 		g.define(in, not(g.val(in.X)))
 	case token.SUB:
